@@ -85,7 +85,7 @@ def main():
         shutil.copytree(VERIF / "seeded" / nm, old / "seeded" / nm, dirs_exist_ok=True)
     res = {}
     for label, root in (("as_delivered", old), ("now", VERIF)):
-        r = sh(f"cd {root} && VERIF_JOBS=12 timeout 14000 ./check selftest-mutants -r{n}")
+        r = sh(f"cd {root} && VERIF_JOBS=12 timeout 14000 ./check selftest-mutants -- r{n}A r{n}B r{n}C")
         for ln in r.stdout.splitlines():
             m = re.match(r"seeded/(\S+): (CAUGHT|MISSED|PASSES|UNEXPECTED|PATCH)(.*)", ln)
             if m:
